@@ -101,15 +101,6 @@ func (rl *RateLimitValidator) Validate(ctx context.Context, req ports.SecurityRe
 		limit = rl.perIPRequestsPerMinute
 	}
 
-	if limit <= 0 {
-		return ports.SecurityResult{
-			Allowed:   true,
-			RateLimit: 0,
-			Remaining: 0,
-			ResetTime: now.Add(time.Minute),
-		}, nil
-	}
-
 	if rl.globalLimiter != nil {
 		reservation := rl.globalLimiter.Reserve()
 		if !reservation.OK() || reservation.Delay() > 0 {
@@ -125,6 +116,16 @@ func (rl *RateLimitValidator) Validate(ctx context.Context, req ports.SecurityRe
 				Reason:     "Rate limit exceeded",
 			}, nil
 		}
+	}
+
+	// no per-IP limit configured: only the global limit above applies
+	if limit <= 0 {
+		return ports.SecurityResult{
+			Allowed:   true,
+			RateLimit: 0,
+			Remaining: 0,
+			ResetTime: now.Add(time.Minute),
+		}, nil
 	}
 
 	return rl.checkIPLimit(req.ClientID, limit, now, req.IsHealthCheck), nil
